@@ -5,10 +5,12 @@
 (* driver.AsyncExecutor) against ReqContext.tla.                            *)
 (* Input (env VERIF_TRACES): JSON array of traces                           *)
 (*   [id, roots: <<task>>, ev: << event >>]                                 *)
-(* event = [a, t, u, last, tau, cur, ucur, par, d, n, rs, st, deps]         *)
+(* event = [a, t, u, last, raised, tau, cur, ucur, par, d, n, rs, st, ok,   *)
+(*          deps]                                                           *)
 (*   a     "Enter" | "WireStart" | "WireEnd" | "Exit" | "Spawn" | "Join"     *)
 (*         | "Sample"                                                       *)
-(*   t, u  acting task, other task (Spawn / Join), last: see WireEnd         *)
+(*   t, u  acting task, other task (Spawn / Join), last: see WireEnd,        *)
+(*         raised: Exit by an exception (exc_type seen by __exit__)          *)
 (*   tau   virtual instant (ticks) of the step                              *)
 (*   cur   context variable of t after the step, as a context id (0 unset)  *)
 (*   ucur  Spawn: context variable the new task u starts with               *)
@@ -18,7 +20,8 @@
 (*         every step): s / e = ticks, -1 key absent, -2 None               *)
 (*   Sample (composite driver): what AsyncExecutor handed to the sampler    *)
 (*         for the request whose top-level context is n: rs request_start,  *)
-(*         st service_time, deps <<m, rs, re, st>> dependent timings        *)
+(*         st service_time, ok: meta data says success (a failed composite  *)
+(*         reports no dependent timings), deps <<m, rs, re, st>>             *)
 (*         (m = context of that sub-request if the harness could link it,   *)
 (*         else 0)                                                          *)
 (* Context ids are given by the harness in order of creation, which is the  *)
@@ -64,7 +67,7 @@ Reset(R) ==
     /\ ctx' = <<>> /\ par' = <<>> /\ open' = <<>> /\ owner' = <<>> /\ lpar' = <<>> /\ sub' = <<>> /\ hs' = <<>> /\ he' = <<>>
     /\ nwire' = 0
     /\ chunks' = 0
-    /\ act' = [name |-> "Init", t |-> 0, u |-> 0, last |-> FALSE]
+    /\ act' = [name |-> "Init", t |-> 0, u |-> 0, last |-> FALSE, raised |-> FALSE]
 
 Delta(c, d) ==
     [n \in 1..Len(c) |->
@@ -100,7 +103,7 @@ Effect(mm, e) ==
     CASE e.a = "Enter"     -> EnterO(e.t)
       [] e.a = "WireStart" -> WireStartO(mm, e.t, e.tau)
       [] e.a = "WireEnd"   -> WireEndO(mm, e.t, e.tau)
-      [] e.a = "Exit"      -> ExitO(mm, e.t)
+      [] e.a = "Exit"      -> ExitO(mm, e.t, e.raised)
       [] e.a = "Spawn"     -> SpawnO(e.t, e.u)
       [] e.a = "Join"      -> JoinO(e.t, e.u)
 
@@ -109,7 +112,7 @@ Detail(id, S) == \A n \in S : PrintT(<<"D", id, l, n, ctx'[n].s, ctx'[n].e, hs'[
 Step(id, e) ==
     /\ Structure(e)
     /\ Recorded(e)
-    /\ act' = [name |-> e.a, t |-> e.t, u |-> e.u, last |-> e.last]
+    /\ act' = [name |-> e.a, t |-> e.t, u |-> e.u, last |-> e.last, raised |-> e.raised]
     /\ LET newStart == BadSpanStart' \ BadSpanStart
            newEnd   == BadSpanEnd' \ BadSpanEnd
            newLeaf  == BadLeaf' \ BadLeaf
@@ -130,7 +133,7 @@ Sample(id, e) ==
     LET n    == e.n
         known == n \in Ctxs /\ hs[n] # Absent
         span == known => (e.rs = hs[n] /\ e.rs >= 0 /\ e.rs + e.st = he[n])
-        dep  == known =>
+        dep  == (known /\ e.ok) =>
                   /\ Len(e.deps) = Cardinality(SubRequests(n))
                   /\ \A i \in 1..Len(e.deps) :
                         LET x == e.deps[i]
